@@ -131,7 +131,7 @@ def item_onoff(repo):
                 kk = ast.literal_eval(k)
                 vv = ast.literal_eval(v)
                 d.append([type(kk).__name__, str(kk), bool(vv)])
-            return d
+            return sorted(d)        # a lookup table: the order of its entries means nothing
     raise ValueError("no dict")
 
 
